@@ -399,9 +399,11 @@ def corner_grid(rng):
     for cname, name, how, owner in rows:
         if how not in ('method', 'prop'):
             continue
-        for variant in range(3):
-            recv = q(rng, cname, shape=[[3], [2, 2], []][variant], plain=True,
-                     mask=['A', [True, False, False, True], 'F'][variant])
+        for variant in range(4):
+            # variants 1 and 3: array mask whose bit at the DEGENERATE item (zero quaternion / zero vector / singular
+            # matrix, position 0) is False, i.e. the degenerate item is unmasked
+            recv = q(rng, cname, shape=[[3], [2, 2], [], [3]][variant], plain=True,
+                     mask=['A', [False, True, False, True], 'F', [False, True, False]][variant])
             recv['zrow'] = [0]
             if variant == 0 and CLASSES[cname].DERIVS_OK:
                 recv['derivs'] = {'t': dict(recv, seed=rng.randrange(1 << 20), mask='A')}
